@@ -10,11 +10,11 @@
 (***************************************************************************)
 EXTENDS Locale, Alphabets, TLC, Json
 
-CONSTANTS Depth, FullDepth, Small, Emit, Mode
+CONSTANTS Depth, FullDepth, Alpha, Emit, Mode    \* Alpha: "full" | "small" | "tiny"
 
 VARIABLE toks
 
-Alphabet == IF Small THEN TokensLocSmall ELSE TokensLoc
+Alphabet == IF Alpha = "tiny" THEN TokensLocTiny ELSE IF Alpha = "small" THEN TokensLocSmall ELSE TokensLoc
 
 R(ts) == IF Mode = "loc" THEN ParseLocTokens(ts) ELSE ParseExtTokens(ts)
 Live(ts) == R(ts).zone # "reject"
